@@ -286,7 +286,38 @@ class CppCodec:
             return out
         if k == "ReturnStmt":
             return self._expr(st, elem, env)
+        core = st
+        while core.kind in ("ExprWithCleanups", "ImplicitCastExpr", "ParenExpr") and core.inner:
+            core = core.inner[0]
+        if core.kind in ("BinaryOperator", "CompoundAssignOperator") and str(core.get("opcode", "")).endswith("=") and core.get("opcode") not in ("==", "!=", "<=", ">=") and core.inner:
+            lhs = core.inner[0]
+            nm = lhs.get("referencedDecl", {}).get("name") if lhs.kind == "DeclRefExpr" else None
+            if nm in env and isinstance(env[nm], tuple) and env[nm][0] == "W":
+                # a decoded word that is used as a count / flag later is changed before that use
+                effs = self._expr(core.inner[1], elem, env)
+                env[nm] = ("changed", nm, self._clamp_unit(core))
+                return effs
         return self._expr(st, elem, env)
+
+    def _clamp_unit(self, asg: CNode) -> str:
+        """`n = std::min(n, buffer.M())`: the unit of M's result - 'bytes' when M returns a difference of the store's size() and the
+        cursor shifted/divided down to bytes, 'bits' when it works on the cursor itself; '?' otherwise."""
+        rhs = asg.inner[1]
+        calls = [y for y in walk(rhs) if y.kind in ("CallExpr",) and any(z.kind == "DeclRefExpr" and z.get("referencedDecl", {}).get("name") == "min" for z in walk(y.inner[0]))]
+        if asg.get("opcode") != "=" or not calls:
+            return "?"
+        for y in walk(rhs):
+            if y.kind == "MemberExpr" and y.get("referencedMemberDecl"):
+                m = self.by_id.get(y["referencedMemberDecl"])
+                if m is not None and m.kind == "CXXMethodDecl" and self.class_of(m) is not None and self.class_of(m).get("name") == "Buffer":
+                    names = [z.get("name") for z in walk(m) if z.kind == "MemberExpr"]
+                    down = any(z.kind == "BinaryOperator" and ((z.get("opcode") == ">>" and self.int_value(z.inner[1]) == 3) or (z.get("opcode") == "/" and self.int_value(z.inner[1]) == 8)) for z in walk(m))
+                    up = any(z.kind == "BinaryOperator" and ((z.get("opcode") == "<<" and self.int_value(z.inner[1]) == 3) or (z.get("opcode") == "*" and 8 in (self.int_value(z.inner[0]), self.int_value(z.inner[1])))) for z in walk(m))
+                    if "size" in names and down and not up:
+                        return "bytes"
+                    if "size" in names and up and not down:
+                        return "bits"
+        return "?"
 
     def _loop_count(self, cond: Optional[CNode], env):
         if cond is None:
@@ -298,6 +329,8 @@ class CppCodec:
                 for y in walk(rhs):
                     if y.kind == "DeclRefExpr":
                         nm = y.get("referencedDecl", {}).get("name")
+                        if nm in env and env[nm][0] == "changed":
+                            return ("clamped", nm, env[nm][2])
                         if nm in env:
                             return ("var", nm)
                 v = self.int_value(rhs)
@@ -411,6 +444,16 @@ class CppCodec:
                         ct = str(c)
                     elif isinstance(c, tuple) and c[0] == "var":
                         ct = "count" if c[1] in state["vars"] else "?"
+                    elif isinstance(c, tuple) and c[0] == "clamped":
+                        # min(count, what is left): harmless when what is left is counted in the unit an iteration consumes at least
+                        widths = [x[1] for x in e[2] if x[0] == "W"]
+                        only_w = all(x[0] == "W" for x in e[2]) and all(isinstance(w_, int) for w_ in widths)
+                        if c[2] == "bits" or (c[2] == "bytes" and only_w and widths and min(widths) >= 8):
+                            ct = "count" if c[1] in state["vars"] else "?"
+                        elif c[2] == "bytes":
+                            ct = "min(count, bytes left)"
+                        else:
+                            ct = "?"
                     elif isinstance(c, tuple) and c[0] == "range":
                         ct = "count" if state["count"] else "len(data) [no prefix]"
                     else:
